@@ -618,12 +618,17 @@ class CircCLI(Contract):
         st.valid = z3.Function('record_is_valid', I_, B_)
         st.v3 = e.bool('circexplorer3')
         st.n_stored_total = e.int('n_stored_total')
-        st.th = dict(min_read_number=e.int('min_read_number'), min_fbr_circ=SymObj('Opt', n='min_fbr_circ'),
-                     min_circ_score=SymObj('Opt', n='min_circ_score'))
+        # the namespace has exactly the options the real parser defines (add_subparser_parse_circexplorer)
+        dests = parser_dests('moPepGen.cli.parse_circexplorer', 'add_subparser_parse_circexplorer')
+        st.opt_fpb = SymObj('Opt', n='--min-fpb-circ')
+        st.th = dict(min_read_number=e.int('min_read_number'), min_circ_score=SymObj('Opt', n='min_circ_score'))
         st.isr, st.ier = SymObj('Range', n='start'), SymObj('Range', n='end')
-        st.args_obj = SymObj('Namespace', input_path=OpaqueStr(['in']), output_path=OpaqueStr(['out']),
-                             intron_start_range='-2,0', intron_end_range='-100,5', circexplorer3=st.v3,
-                             source='circRNA', **st.th)
+        known = dict(input_path=OpaqueStr(['in']), output_path=OpaqueStr(['out']), intron_start_range='-2,0',
+                     intron_end_range='-100,5', circexplorer3=st.v3, source='circRNA', **st.th)
+        for d in dests:
+            if 'fpb' in d or 'fbr' in d:
+                known[d] = st.opt_fpb
+        st.args_obj = real_namespace(dests, known)
         st.anno = SymObj('AnnoStub17')
         nk = e.int('n_genes_with_records')
         e.assume(nk >= 0)
@@ -660,7 +665,7 @@ class CircCLI(Contract):
         def is_valid(I, o, a, k):
             st = c._cur
             v3 = st.path_v3
-            want = [st.th['min_read_number']] + ([st.th['min_fbr_circ'], st.th['min_circ_score']] if v3 else [])
+            want = [st.th['min_read_number']] + ([st.opt_fpb, st.th['min_circ_score']] if v3 else [])
             I.e.prove('C17/cli/is_valid-gets-the-thresholds-of-the-command', len(a) == len(want) and all(x is y for x, y in zip(a, want)))
             st.calls.append(('is_valid', o.fields['idx']))
             return st.valid(o.fields['idx'])
@@ -689,6 +694,7 @@ class CircCLI(Contract):
             c._cur.log.append(('write', a[0]))
         reg.func_('moPepGen/circ/io.py', 'write', write)
         reg.ext_('circ.io.write', write)
+        reg.strict_attr_classes = {'Namespace'}
 
         def stale(I, obj, attr):
             I.e.prove('C17/cli/skipped-record-contributes-nothing (no use of a record converted in an earlier iteration)', False)
@@ -788,6 +794,8 @@ class CircCLI(Contract):
 
     def post_raise(self, I, st, exc):
         I.e.prove('C17/cli/raise/only-an-unexpected-failure-of-convert-propagates', exc.cls == '<any>' and st.outcome == 3)
+        if exc.cls == 'AttributeError':
+            I.e.prove(f'C17/cli/every-option-read-is-defined-by-the-parser:{exc.msg}', False)
 
 
 
@@ -895,4 +903,50 @@ class NativeCirc(NativeCheck):
         return (inp['strand'], inp['ctype'], len(inp['blocks']), len(inp['exons']), tuple(inp['isr']), tuple(inp['ier']))
 
 
-NATIVE = [NativeCirc()]
+class NativeCircCLI(NativeCheck):
+    name = 'circ_cli_options'
+    props = ('C17',)
+    functions = (f'{CLI}:parse_circexplorer',)
+    bounded_for = ''
+    bound = ('CPython run of the real parseCIRCexplorer command line (real argparse definition) on the demo CIRCexplorer2 / '
+             'CIRCexplorer3 files, with and without the CIRCexplorer3 thresholds: the command completes and the tally adds up')
+    quick_budget_s = 30
+    thorough_budget_s = 60
+
+    def cases(self, rng, tier):
+        yield dict(v3=False, extra=[])
+        yield dict(v3=True, extra=[])
+        yield dict(v3=True, extra=['--min-fpb-circ', '1', '--min-circ-score', '1'])
+
+    def from_model(self, model):
+        return dict(v3=True, extra=[])
+
+    def check(self, inp):
+        import argparse, tempfile, shutil, os
+        from pathlib import Path
+        from moPepGen.cli import parse_circexplorer as mod
+        data = Path(os.environ.get('PYVC_REPO', '/repo')) / 'test' / 'files'
+        d = Path(tempfile.mkdtemp(prefix='verif_c17_'))
+        try:
+            top = argparse.ArgumentParser(prog='moPepGen')
+            sp = mod.add_subparser_parse_circexplorer(top.add_subparsers())
+            src = data / 'circRNA' / ('CIRCexplorer3_circularRNA_known.txt' if inp['v3'] else 'CIRCexplorer_circularRNA_known.txt')
+            argv = ['-i', str(src), '-o', str(d / 'out.gvf'), '--source', 'circRNA', '--annotation-gtf', str(data / 'annotation.gtf'),
+                    '--quiet'] + (['--circexplorer3'] if inp['v3'] else []) + inp['extra']
+            args = sp.parse_args(argv)
+            try:
+                args.func(args)
+            except Exception as ex:
+                return dict(call='parseCIRCexplorer ' + ' '.join(argv[8:]), observed=f'{type(ex).__name__}: {ex}',
+                            expected='the command completes', signature='command-aborts')
+            n_in = sum(1 for l in open(src) if l.strip())
+            n_out = sum(1 for l in open(d / 'out.gvf') if l.strip() and not l.startswith('#')) if (d / 'out.gvf').exists() else 0
+            if n_out > n_in:
+                return dict(call='parseCIRCexplorer', observed=f'{n_out} records from {n_in} rows', expected='at most one record per row',
+                            signature='more-records-than-rows')
+        finally:
+            shutil.rmtree(d, ignore_errors=True)
+        return None
+
+
+NATIVE = [NativeCirc(), NativeCircCLI()]
